@@ -1870,15 +1870,6 @@ def tables_runtime_check(ck) -> None:
         for fn, key in (("is_floating_point", "floating"), ("is_integer", "integer"), ("is_signed", "signed")):
             if getattr(m, fn)() != (v in t[key]):
                 ck.broken("translation:" + fn, m.name)
-    # nbytes = ceil(size * bw / 8) also for sizes far beyond anything materialisable (float arithmetic in the code)
-    for name in NUMERIC():
-        for size in (0, 1, 3, 7, (1 << 31) + 1, (1 << 40) + 3, (1 << 50) - 1):
-            lt = ir.LazyTensor(lambda: None, dtype=ir.DataType[name], shape=ir.Shape([size]))
-            ck.count()
-            if lt.nbytes != ref_nbytes(name, size) or lt.size != size:
-                ck.violation({"kind": "oracle-nbytes", "dtype": name, "size": size, "nbytes": lt.nbytes,
-                              "required": ref_nbytes(name, size)})
-                return
 
 
 def type_casting_stream(ck) -> None:
@@ -1942,29 +1933,35 @@ def type_casting_stream(ck) -> None:
         ck.broken("correspondence:case-file-type_casting", str(e))
 
 
-def nbytes_stream(ck) -> None:
+def nbytes_stream(ck, corpus=()) -> None:
     """nbytes / size of declared shapes far beyond anything materialisable (LazyTensor never calls its function):
     the model includes the float arithmetic of the code (rne53), so sizes above 2^53 are predicted too."""
     import onnx_ir as ir
     rng = ck.rng
     rows = []
+    todo = [(c["dtype"], list(c["shape"])) for c in corpus]
     for name in NUMERIC():
         sizes = [0, 1, 7, (1 << 31) + 1, (1 << 53) - 1, 1 << 53, (1 << 53) + 1, (1 << 53) + 2, (1 << 53) + 3, (1 << 54) + 2,
                  (1 << 54) + 6, (1 << 60) + (1 << 7), (1 << 60) + (1 << 7) + 1, 3 * (1 << 62) + 12345]
         sizes += [rng.getrandbits(rng.randrange(50, 90)) for _ in range(6 if not ck.thorough else 60)]
         for size in sizes:
-            shape = [size] if rng.random() < 0.6 else rng.choice([[1, size], [size, 1, 1], [2, (size + 1) // 2], [3, 5, size // 15 + 1]])
-            lt = ir.LazyTensor(lambda: None, dtype=ir.DataType[name], shape=ir.Shape(shape))
-            total = 1
-            for d in shape:
-                total *= d
-            if lt.size != total:
-                ck.violation({"kind": "oracle-size", "dtype": name, "shape": shape, "size": lt.size, "required": total})
-            rows.append((int(ir.DataType[name]), shape, lt.nbytes))
-            ck.count()
-            ck.hist("nbytes_stream", "size<2^53" if total < (1 << 53) else "size>=2^53")
-            if total >= 1 << 53:
-                ck.nontriv(("nbytes", name, shape))
+            todo.append((name, [size] if rng.random() < 0.6 else rng.choice(
+                [[1, size], [size, 1, 1], [2, (size + 1) // 2], [3, 5, size // 15 + 1]])))
+    reported = False
+    for name, shape in todo:
+        lt = ir.LazyTensor(lambda: None, dtype=ir.DataType[name], shape=ir.Shape(shape))
+        total = 1
+        for d in shape:
+            total *= d
+        if (lt.size != total or lt.nbytes != ref_nbytes(name, total)) and not reported:
+            reported = True          # the property itself: nbytes = ceil(size * bitwidth / 8) for every shape
+            ck.violation({"kind": "oracle-nbytes", "dtype": name, "shape": shape, "size": lt.size, "nbytes": lt.nbytes,
+                          "required_size": total, "required": ref_nbytes(name, total)})
+        rows.append((int(ir.DataType[name]), shape, lt.nbytes))
+        ck.count()
+        ck.hist("nbytes_stream", "size<2^53" if total < (1 << 53) else "size>=2^53")
+        if total >= 1 << 53:
+            ck.nontriv(("nbytes", name, shape))
     text = CASE_HEADER + "Definition rows : list (N * list N * N) :=\n  " + clist(
         f"({d}, {clist(cN(x) for x in sh)}, {cN(nb)})" for d, sh, nb in rows).replace("; (", ";\n  (") + \
         ".\nEval vm_compute in (failing nb_agree rows).\n"
@@ -1988,7 +1985,6 @@ def run(ck) -> None:
              "sub-byte types (checked on all 256 bytes every run), protobuf field presence and float bit preservation, "
              "mmap, os.copy_file_range (any schedule of partial copies), torch storage bytes, Python file objects")
     ck.assumptions += ["little-endian platform (the big-endian byte swaps are not modelled)",
-                       "nbytes: math.ceil(bitwidth/8 * size) is exact (size < 2^50)",
                        "numpy/ml_dtypes/onnx/protobuf/torch as installed in /venv",
                        "BOOL elements are 0/1; element bit patterns are in range for the dtype"]
     ck.coverage["rule"] = ("non-trivial = sub-byte dtype with a partial last byte, external data with a prefix or ending "
@@ -2003,7 +1999,6 @@ def run(ck) -> None:
     env_contract_subbyte(ck)
     tables_runtime_check(ck)
     type_casting_stream(ck)
-    nbytes_stream(ck)
     wd = os.path.join(ck.scratch, "w")
     os.makedirs(wd, exist_ok=True)
 
@@ -2016,7 +2011,11 @@ def run(ck) -> None:
                 with open(os.path.join(cdir, fn)) as f:
                     js = json.load(f)
                 specs += js if isinstance(js, list) else [js]
-    ck.coverage["corpus_cases"] = len(specs)
+    corpus_strings = [c["strings"] for c in specs if "strings" in c]
+    corpus_nbytes = [c["nbytes"] for c in specs if "nbytes" in c]
+    specs = [c for c in specs if "dtype" in c]
+    ck.coverage["corpus_cases"] = len(specs) + len(corpus_strings) + len(corpus_nbytes)
+    nbytes_stream(ck, corpus_nbytes)
     specs += gen_wellformed(ck) + gen_pyvalues(ck) + gen_malformed(ck)
     cases, failures = [], []
     for i, spec in enumerate(specs):
@@ -2059,7 +2058,7 @@ def run(ck) -> None:
     mism_specs = [cases[i][0] for i in mism]
 
     # ---- string tensors
-    sc = string_cases(ck)
+    sc = [(w["kind"], w["shape"], [bytes.fromhex(x) for x in w["strings_hex"]], True) for w in corpus_strings] + string_cases(ck)
     sterms, sfail = [], []
     for kind, shape, ss, with_nul in sc:
         o = observe_string(kind, shape, ss)
@@ -2110,7 +2109,7 @@ def run(ck) -> None:
                 ck.known_finding(k["key"], k["what"])
             else:
                 ck.broken(f"known-finding-stale:{k['key']}", "the recorded witness no longer fails")
-    for kind, shape, ss, bad in sfail:
+    for kind, shape, ss, bad in sfail[:3]:
         if is_known_string(kind, ss, bad) and ck.known("string-trailing-nul"):
             ck.known_finding("string-trailing-nul", ck.known("string-trailing-nul")["what"])
         else:
@@ -2188,9 +2187,13 @@ def replay(rp: dict) -> int:
             return 1 if bad else 0
         if rp.get("kind") == "oracle-nbytes":
             import onnx_ir as ir
-            lt = ir.LazyTensor(lambda: None, dtype=ir.DataType[rp["dtype"]], shape=ir.Shape([rp["size"]]))
-            ok = lt.nbytes == ref_nbytes(rp["dtype"], rp["size"])
-            print(json.dumps({"dtype": rp["dtype"], "size": rp["size"], "nbytes": lt.nbytes, "required": ref_nbytes(rp["dtype"], rp["size"])}))
+            shape = rp.get("shape") or [rp["size"]]
+            total = 1
+            for d in shape:
+                total *= d
+            lt = ir.LazyTensor(lambda: None, dtype=ir.DataType[rp["dtype"]], shape=ir.Shape(shape))
+            ok = lt.nbytes == ref_nbytes(rp["dtype"], total) and lt.size == total
+            print(json.dumps({"dtype": rp["dtype"], "shape": shape, "size": lt.size, "nbytes": lt.nbytes, "required": ref_nbytes(rp["dtype"], total)}))
             return 0 if ok else 1
         if rp.get("strings"):
             w = rp["strings"]
